@@ -34,7 +34,8 @@ ASSUMPTIONS = ["data compared exactly as float32(saved data)", "frames have >= 3
                ".h5 files are checked through blimpy + h5py only (no independent HDF5 reader)"]
 PROBES = ["derived_of_loaded_frame_saved", "derived_after_get_waterfall_saved", "loaded_resaved", "copy_saved", "pickled_saved",
           "format_fil", "format_h5", "descending", "ascending", "clock_jump", "refsigproc_input", "helpers_checked", "sliced_saved",
-          "dedrifted_saved", "sibling_frames_alive", "retimed_after_history", "data_rebound_after_waterfall", "saved_over_existing_file"]
+          "dedrifted_saved", "sibling_frames_alive", "retimed_after_history", "data_rebound_after_waterfall", "saved_over_existing_file",
+          "save_failed_then_frame_used_again"]
 
 
 def generate(rng, tier):
@@ -67,6 +68,11 @@ def generate(rng, tier):
         elif r < 0.78:
             # the frame's data array is *replaced* (not edited in place): re-use for another realisation, load_npy, assignment
             ops.append({"op": "rebind", "fr": fr, "how": rng.choice(["zero_refill", "load_npy", "assign"]), "seed": rng.randrange(1 << 30)})
+        elif r < 0.86 and r >= 0.80:
+            # a save / get_waterfall that does not complete: rejected because the frame holds an unusable value at that
+            # moment (repaired afterwards), or interrupted at an arbitrary line
+            ops.append({"op": "failed_save", "fr": fr, "call": rng.choice(["save_fil", "save_hdf5", "get_waterfall"]),
+                        "how": rng.choice(["bad_tstart", "bad_data", "interrupt", "interrupt"]), "at": rng.randint(1, 90)})
         elif r < 0.80:
             # the frame's start time is re-assigned, by the library's own Cadence(t_overwrite=True) or by the user
             ops.append({"op": "retime", "fr": fr, "via": rng.choice(["cadence", "assign"]), "slew": rng.choice([0.0, 150.0, 3600.0])})
@@ -319,6 +325,43 @@ def execute(sc, ctx):
                     fr.t_start = fr.t_start + op["slew"] + 1.0
                 h.append("retimed")
                 ctx.hit("retimed_after_history" if [x for x in h if x in ("wf", "saved", "copy", "loaded")] else "retimed")
+            elif kind == "failed_save":
+                from ..core import InjectedInterrupt
+                pth = ctx.seams.path("x%d.%s" % (j, "fil" if op["call"] == "save_fil" else "h5"))
+                call = (lambda: fr.get_waterfall()) if op["call"] == "get_waterfall" else (lambda: getattr(fr, op["call"])(pth))
+                before = F.state_digest(fr)
+                old_data, old_t = fr.data, fr.t_start
+                tracer = None
+                try:
+                    if op["how"] == "bad_tstart":
+                        fr.t_start = "2021-03-04T00:00:00"
+                    elif op["how"] == "bad_data":
+                        fr.data = fr.data[0]
+                    else:
+                        tracer = ctx.seams.interrupt_at(["frame.py:_update_waterfall", "frame.py:get_waterfall", "frame.py:save_fil",
+                                                         "frame.py:save_hdf5"], op["at"])
+                    try:
+                        call()
+                        failed = False
+                    finally:
+                        if tracer is not None:
+                            ctx.seams.stop_trace()
+                except InjectedInterrupt:
+                    failed = True
+                except Exception:
+                    failed = True
+                    if tracer is not None:
+                        raise
+                finally:
+                    fr.data, fr.t_start = old_data, old_t
+                if failed:
+                    ctx.fired("interrupt" if tracer is not None else "rejected_save")
+                    h.append("failedsave")
+                    ctx.hit("save_failed_then_frame_used_again")
+                    ctx.check(F.state_digest(fr) == before, "save", "C03/save/frame_modified_by_failed_save",
+                              "a save that did not complete changed the frame's own state")
+                elif op["call"] == "get_waterfall":
+                    h.append("wf")
             elif kind == "save":
                 fmt = op["fmt"]
                 ext = "fil" if fmt == "fil" else "h5"
